@@ -27,8 +27,17 @@
 
    Features covered (grown feature by feature, see Features below).
 
-   OutOfModel (cause "oom"): see ElvCoreValues.  In addition: external commands, unresolved
-   names, byte output, reading a variable whose declaration was skipped.
+   Unspecified(...) -- outcomes the reference leaves open; both are accepted (the chunk is skipped
+   and counted, causes "unspec" / "oom" with the reason):
+     * a pipeline whose outcome depends on the schedule (side conditions (a)-(c) at ExecStages);
+     * the slice `a..=b` with b below -n (ElvCoreValues.IndexRange);
+     * `/ 0` (ElvCoreBuiltins: the reciprocal rule and the exact-0 rule of the documentation disagree);
+     * equality of two exception values (identity of exception objects);
+     * `order` of more than 12 values containing an uncomparable pair the sort may never compare.
+   OutOfModel (cause "oom", with a reason): see ElvCoreValues.  In addition: external commands,
+   unresolved names, builtins and options outside Appendix B.4, a callback of each / keep-if /
+   order reading its caller's input, loops beyond MaxIter, calls nested beyond MaxDepth, opaque
+   values (the `reason` of an exception) in the output.
 
    Scoping note.  Elvish resolves names statically and allocates the variables of a scope when
    the scope is entered; this model binds a name when its `var` executes.  The two agree whenever
@@ -45,7 +54,7 @@ Features == <<"values", "put", "var", "set", "list", "map", "indexing", "arith",
               "if", "while", "for", "fn", "lambda", "closure", "return",
               "fail", "try", "break", "continue", "and", "or", "coalesce", "exception-capture",
               "rest-args", "options", "pipelines", "range", "each", "all", "take", "drop", "count",
-              "one", "compact", "order", "keep-if">>
+              "one", "compact", "order", "keep-if", "del", "exception-fields">>
 
 \* ---------------------------------------------------------------- results
 Res(st, env, vs, out, exc) == [st |-> st, env |-> env, vs |-> vs, out |-> out, exc |-> exc]
@@ -97,6 +106,7 @@ RECURSIVE ExecWhile(_, _, _, _, _)
 RECURSIVE ExecForLoop(_, _, _, _, _, _, _)
 RECURSIVE EvalLogic(_, _, _, _, _, _)
 RECURSIVE EvalOpts(_, _, _, _, _)
+RECURSIVE ExecDel(_, _, _, _)
 
 \* A block (body of if/while/for/try, of a function) runs in a new lexical scope: the names it
 \* declares are gone afterwards, the variables (locations) it changed are not.
@@ -534,6 +544,30 @@ ExecFn(st, env, f) ==
   IN IF Failed(r) THEN [r EXCEPT !.vs = <<>>]
      ELSE [r EXCEPT !.vs = <<>>, !.st = SetLoc(r.st, loc, [r.vs[1] EXCEPT !.wrap = TRUE])]
 
+\* "del": a variable name is removed from the scope (closures that captured the variable keep
+\* it); `del m[k]...` removes a map element: `m = (dissoc ...)` applied along the index path.
+\* (Only variables of the current scope can be deleted; the program profile observes that.)
+RECURSIVE DissocPath(_, _, _)
+\* as: containers along the path, idx: indices; remove idx[Len] from as[Len], assoc back upwards
+DissocPath(as, idx, v0) ==
+  LET n == Len(idx)
+      last == as[n]
+  IN IF last.k # "map" THEN Bad(CType)                       \* "value does not support element removal"
+     ELSE IF ~KeyOK(idx[n]) THEN Bad(COOM)
+     ELSE AssocPath(as, idx, n - 1, VMap(MapDissoc(last.ps, idx[n])))
+ExecDel(st, env, lvs, i) ==
+  IF i > Len(lvs) THEN Done(st, env)
+  ELSE LET lv == lvs[i] IN
+       IF ~Bound(env, lv.n) THEN Throw(st, env, OOM("del of an unresolved variable"))
+       ELSE IF lv.idx = <<>> THEN ExecDel(st, Unbind(env, lv.n), lvs, i + 1)
+       ELSE LET ri == EvalSingles(st, env, lv.idx, 1, <<>>, CArity) IN   \* "index must evaluate to a single value"
+            IF Failed(ri) THEN ri
+            ELSE LET a == Assocers(ri.st.store[env[lv.n]], ri.vs, 1, <<>>) IN
+                 IF ~a.ok THEN After(ri, Throw(ri.st, ri.env, a.c))
+                 ELSE LET nv == DissocPath(a.as, ri.vs, 0) IN
+                      IF ~nv.ok THEN After(ri, Throw(ri.st, ri.env, nv.c))
+                      ELSE After([ri EXCEPT !.vs = <<>>], ExecDel(SetLoc(ri.st, env[lv.n], nv.v), ri.env, lvs, i + 1))
+
 AllTruthy(vs) == \A i \in 1..Len(vs) : Truthy(vs[i])
 
 \* "if": conditions one by one; several values are and'ed, no value is true
@@ -625,6 +659,7 @@ ExecForm(st, env, f) ==
     [] f.t = "var"   -> ExecVar(st, env, f)
     [] f.t = "set"   -> ExecSet(st, env, f)
     [] f.t = "fn"    -> ExecFn(st, env, f)
+    [] f.t = "del"   -> ExecDel(st, env, f.lhs, 1)
     [] f.t = "if"    -> ExecIf(st, env, f, 1)
     [] f.t = "while" -> ExecWhile(st, env, f, FALSE, MaxIter)
     [] f.t = "for"   -> ExecFor(st, env, f)
@@ -706,6 +741,8 @@ DeclareRest(st, env, ps, i) ==
            d == CASE f.t = "var" -> Declare(st, env, [j \in 1..Len(f.lhs) |-> f.lhs[j].n],
                                             [j \in 1..Len(f.lhs) |-> VNil], 1)
                   [] f.t = "fn"  -> Declare(st, env, <<f.name \o "~">>, <<VBuiltin("nop")>>, 1)
+                  [] f.t = "del" -> [st |-> st,            \* deletion of a variable is a compile-time effect
+                                     env |-> [x \in (DOMAIN env) \ {f.lhs[j].n : j \in {q \in 1..Len(f.lhs) : f.lhs[q].idx = <<>>}} |-> env[x]]]
                   [] f.t = "for" -> LET sv == ScopeVar(st, env, f.v.n) IN [st |-> sv.st, env |-> sv.env]
                   [] f.t = "try" -> IF f.cvar = <<>> THEN [st |-> st, env |-> env]
                                     ELSE LET sv == ScopeVar(st, env, f.cvar[1]) IN [st |-> sv.st, env |-> sv.env]
